@@ -7,7 +7,7 @@ From Mimium Require Import Lmmm.Syntax Lmmm.Ref Lmmx.Syntax Lmmx.Ref Lmmx.Exampl
 Import ListNotations.
 Local Open Scope N_scope.
 
-Definition an0 : annots := mkAnn [] [].
+Definition an0 : annots := mkAnn [] [] [].
 Definition ret_of (an : annots) (p : xprogram) : option ty := option_map ti_dsp_ret (tc_prog an p).
 
 Lemma ex_counter_typed : ret_of an0 ex_counter = Some TNum.
@@ -15,13 +15,13 @@ Proof. vm_compute. reflexivity. Qed.
 Lemma ex_two_counters_typed : ret_of an0 ex_two_counters = Some TNum.
 Proof. vm_compute. reflexivity. Qed.
 (* fn f2(v3 : ()->float) *)
-Lemma ex_hof_stateful_typed : ret_of (mkAnn [(3, TFn [] TNum)] []) ex_hof_stateful = Some TNum.
+Lemma ex_hof_stateful_typed : ret_of (mkAnn [(3, TFn [] TNum)] [] []) ex_hof_stateful = Some TNum.
 Proof. vm_compute. reflexivity. Qed.
 Lemma ex_hof_stateful_needs_annotation : ret_of an0 ex_hof_stateful = None.
 Proof. vm_compute. reflexivity. Qed.
 Lemma ex_nested_assign_typed : ret_of an0 ex_nested_assign = Some TNum.
 Proof. vm_compute. reflexivity. Qed.
-Lemma ex_shared_after_passing_typed : ret_of (mkAnn [(8, TFn [] TNum)] []) ex_shared_after_passing = Some TNum.
+Lemma ex_shared_after_passing_typed : ret_of (mkAnn [(8, TFn [] TNum)] [] []) ex_shared_after_passing = Some TNum.
 Proof. vm_compute. reflexivity. Qed.
 Lemma ex_defaults_pipe_typed : ret_of an0 ex_defaults_pipe = Some (TTup [TNum; TNum; TNum]).
 Proof. vm_compute. reflexivity. Qed.
@@ -66,7 +66,7 @@ Proof. vm_compute. split; reflexivity. Qed.
 (* fn dsp(){ 1 < (1, 2) } *)
 Definition bad_operand : xprogram := mkXProg [] [] [] [XBin OLt (XLit 1) (XTuple [XLit 1; XLit 2])].
 Lemma bad_operand_lenient :
-  tc_prog an0 bad_operand = None /\ ret_of (mkLenient [] []) bad_operand = Some TNum /\ xrun 20 bad_operand [[]] = Stuck E_NOTNUM.
+  tc_prog an0 bad_operand = None /\ ret_of (mkLenient [] [] []) bad_operand = Some TNum /\ xrun 20 bad_operand [[]] = Stuck E_NOTNUM.
 Proof. vm_compute. repeat split; reflexivity. Qed.
 
 (* fn dsp(){ let v1 = {fa = 1}  v1.fb } *)
@@ -95,12 +95,82 @@ Proof. vm_compute. split; reflexivity. Qed.
 Definition ex_rec : xprogram :=
   mkXProg [GFun 1 [(2, None)] (XIf (XVar 2) (XBin OAdd (XApp (XVar 1) [XBin OSub (XVar 2) (XLit 1)]) (XLit 1)) (XLit 0))]
           [] [] [XApp (XVar 1) [XLit 3]].
-Lemma ex_rec_typed : ret_of (mkAnn [] [(1, TNum)]) ex_rec = Some TNum.
+Lemma ex_rec_typed : ret_of (mkAnn [] [(1, TNum)] []) ex_rec = Some TNum.
 Proof. vm_compute. reflexivity. Qed.
 Lemma ex_rec_needs_return_type : ret_of an0 ex_rec = None.
 Proof. vm_compute. reflexivity. Qed.
 Lemma ex_rec_run : xrun 20 ex_rec [[]] = Ok [[3]]%Z /\ xrun 5 ex_rec [[]] = OutOfFuel.
 Proof. vm_compute. split; reflexivity. Qed.
 (* a wrong return annotation is rejected *)
-Lemma ex_rec_wrong_return_type : ret_of (mkAnn [] [(1, TTup [TNum; TNum])]) ex_rec = None.
+Lemma ex_rec_wrong_return_type : ret_of (mkAnn [] [(1, TTup [TNum; TNum])] []) ex_rec = None.
+Proof. vm_compute. reflexivity. Qed.
+
+(* ---- sum types, match, multi-word self ---- *)
+Local Close Scope N_scope.
+Definition sums_T : list (ident * list (option ty)) := [(50%N, [Some (TTup [TNum; TNum]); Some TNum; None])].
+Definition an_T : annots := mkAnn [] [] sums_T.
+Definition ty_T : ty := TSum 50%N [Some (TTup [TNum; TNum]); Some TNum; None].
+
+(* the program of Lmmx/Examples.v with a sum-typed self is accepted, dsp returns a number *)
+Lemma ex_sum_self_typed : ret_of an_T ex_sum_self = Some TNum.
+Proof. vm_compute. reflexivity. Qed.
+Lemma ex_tuple_self_typed : ret_of an0 ex_tuple_self = Some TNum.
+Proof. vm_compute. reflexivity. Qed.
+Lemma ex_match_arm_state_typed : ret_of an0 ex_match_arm_state = Some TNum.
+Proof. vm_compute. reflexivity. Qed.
+
+(* one word for the tag and room for the widest payload *)
+Lemma word_size_T : word_size ty_T = 3.
+Proof. reflexivity. Qed.
+Lemma word_size_sum : forall nm cs,
+  word_size (TSum nm cs) = S (list_max (map (fun o => match o with Some t => word_size t | None => 0 end) cs)).
+Proof.
+  intros nm cs. cbn [word_size]. f_equal. induction cs as [|o cs IH]; [reflexivity|]. cbn [map list_max fold_right]. rewrite IH. reflexivity.
+Qed.
+
+(* a match that is not exhaustive is rejected, and it does get stuck: match now { 0 => 10 } *)
+Definition bad_match_nonexhaustive : xprogram := mkXProg [] [] [] [XMatch XNow [(MLit 0, XLit 10)]].
+Lemma bad_match_nonexhaustive_rejected :
+  tc_prog an0 bad_match_nonexhaustive = None /\ ret_of (mkLenient [] [] []) bad_match_nonexhaustive = Some TNum /\
+  xrun 20 bad_match_nonexhaustive [[]; []] = Stuck E_NOMATCH.
+Proof. vm_compute. repeat split. Qed.
+
+(* a sum match that misses a constructor: match K1(1) { K0((a, b)) => a } on type T *)
+Definition bad_match_missing_ctor : xprogram :=
+  mkXProg [] [] [] [XMatch (XCon 50%N 1 (Some (XLit 1))) [(MCon 0 (Some (PTup [PVar 4%N; PVar 5%N])), XVar 4%N)]].
+Lemma bad_match_missing_ctor_rejected :
+  tc_prog an_T bad_match_missing_ctor = None /\ xrun 20 bad_match_missing_ctor [[]] = Stuck E_NOMATCH.
+Proof. vm_compute. repeat split. Qed.
+
+(* payload of the wrong type: K1((1, 2)) where K1 carries a number; then K1's payload is used as a number *)
+Definition bad_payload_type : xprogram :=
+  mkXProg [] [] [] [XMatch (XCon 50%N 1 (Some (XTuple [XLit 1; XLit 2]))) [(MCon 1 (Some (PVar 4%N)), XBin OAdd (XVar 4%N) (XLit 1)); (MWild, XLit 0)]].
+Lemma bad_payload_type_rejected : tc_prog an_T bad_payload_type = None /\ xrun 20 bad_payload_type [[]] = Stuck E_NOTNUM.
+Proof. vm_compute. repeat split. Qed.
+
+(* constructor arity: K2 carries nothing but is given a payload, K1 carries a number but is given none *)
+Definition bad_ctor_arity : xprogram :=
+  mkXProg [] [] [] [XMatch (XCon 50%N 1 None) [(MCon 1 (Some (PVar 4%N)), XBin OAdd (XVar 4%N) (XLit 1)); (MWild, XLit 0)]].
+Lemma bad_ctor_arity_rejected : tc_prog an_T bad_ctor_arity = None /\ xrun 20 bad_ctor_arity [[]] = Stuck E_NOTNUM.
+Proof. vm_compute. repeat split. Qed.
+
+(* a pattern of the wrong type: a literal pattern against a sum value *)
+Definition bad_pattern_type : xprogram :=
+  mkXProg [] [] [] [XMatch (XCon 50%N 2 None) [(MLit 0, XLit 1); (MWild, XLit 0)]].
+Lemma bad_pattern_type_rejected :
+  tc_prog an_T bad_pattern_type = None /\ ret_of (mkLenient [] [] sums_T) bad_pattern_type = Some TNum /\
+  xrun 20 bad_pattern_type [[]] = Stuck E_PAT.
+Proof. vm_compute. repeat split. Qed.
+
+(* arms of different types *)
+Definition bad_match_arms : xprogram :=
+  mkXProg [] [] [] [XBin OAdd (XMatch XNow [(MLit 0, XLit 1); (MWild, XTuple [XLit 1; XLit 2])]) (XLit 1)].
+Lemma bad_match_arms_rejected :
+  tc_prog an0 bad_match_arms = None /\ xrun 20 bad_match_arms [[]; []] = Stuck E_NOTNUM.
+Proof. vm_compute. repeat split. Qed.
+
+(* self read at a type that is not the function's return type *)
+Definition bad_self_shape : xprogram :=
+  mkXProg [GFun 1%N [] (XLet (PTup [PVar 3%N; PVar 4%N]) (XSelfS (STup [SNum; SNum])) (XBin OAdd (XVar 3%N) (XVar 4%N)))] [] [] [XApp (XVar 1%N) []].
+Lemma bad_self_shape_rejected : tc_prog an0 bad_self_shape = None.
 Proof. vm_compute. reflexivity. Qed.
